@@ -206,6 +206,31 @@ def run(loader, R, tier):
                         "symbols outside the binder" % (short(X),
                                                         show(n)[:50]))
 
+    # ---------------------------------------------------------------- R39.8
+    # binder classes (frozen table, each read in the source): the node binds
+    # one of its own children as a variable.  free_symbols must have a
+    # binding-aware handler for each (R39.3 then demands one in has_symbol)
+    R.rule("R39.8", "every binder class has a binding-aware free_symbols "
+                    "handler")
+    BINDERS = {"SymEngine::Subs": "substituted variables",
+               "SymEngine::ConditionSet": "{sym | condition}",
+               "SymEngine::ImageSet": "{expr | sym in base}"}
+    for X, why in sorted(BINDERS.items()):
+        if X not in prog.classes:
+            raise AnalysisBroken("binder class %s vanished" % X)
+        f = dfs.get(X)
+        ok = f is not None and binds(f)
+        R.instance("R39.8", short(X), sample={"class": short(X),
+                                              "binds": why,
+                                              "binding_aware_handler": ok})
+        if not ok:
+            R.violation(
+                "R39.8", short(X), prog.loc(
+                    prog.functions[prog.find_method(FS, "apply")]),
+                "%s binds a variable (%s) but FreeSymbolsVisitor has no "
+                "binding-aware handler for it: the bound variable is "
+                "reported as a free symbol" % (short(X), why))
+
     # ---------------------------------------------------------------- R39.7
     # the needle classes: coeff() admits a Symbol or a FunctionSymbol as the
     # generator and asks has_symbol about it; HasSymbolVisitor must compare
